@@ -133,8 +133,96 @@ func (f *FM) put(d int) {
 	f.setInt(d, f.fieldOf(c))
 }
 
+// corpusField replays the field-package entries of the carry-coverage corpus through the internal field API.
+func (f *FM) corpusField() {
+	entries := loadCorpus("field")
+	stored := func(v *big.Int) *big.Int { return mulmod(new(big.Int).Mod(v, bigP), rInvP, bigP) }
+	n := 0
+	for _, e := range entries {
+		as := e.arrays()
+		if n%20 == 0 {
+			f.reset()
+		}
+		ok := func(k int) bool {
+			if len(as) < k {
+				return false
+			}
+			for _, a := range as[:k] {
+				if a.Cmp(bigP) >= 0 {
+					return false
+				}
+			}
+			return true
+		}
+		ids := []kv{{"d", 3}, {"a", 1}, {"b", 2}}
+		switch e.Func {
+		case "Mul", "Add", "Sub":
+			if !ok(2) {
+				continue
+			}
+			f.setInt(0, stored(as[0]))
+			f.setInt(1, stored(as[1]))
+			switch e.Func {
+			case "Mul":
+				f.F[2].Multiply(f.F[0], f.F[1])
+				f.emitF("FMul", ids...)
+			case "Add":
+				f.F[2].Add(f.F[0], f.F[1])
+				f.emitF("FAdd", ids...)
+			default:
+				f.F[2].Subtract(f.F[0], f.F[1])
+				f.emitF("FSub", ids...)
+			}
+		case "Square":
+			if !ok(1) {
+				continue
+			}
+			f.setInt(0, stored(as[0]))
+			f.F[2].Square(f.F[0])
+			f.emitF("FSqr", ids[:2]...)
+		case "Opp":
+			if !ok(1) {
+				continue
+			}
+			f.setInt(0, stored(as[0]))
+			f.F[2].Negate(f.F[0])
+			f.emitF("FNeg", ids[:2]...)
+		case "FromMontgomery":
+			if !ok(1) {
+				continue
+			}
+			f.setInt(0, stored(as[0]))
+			f.emitF("FBytes", kv{"a", 1}, kv{"ret", f.F[0].Bytes()})
+			f.emitF("FSgn0", kv{"a", 1}, kv{"ret", clamp(f.F[0].Sgn0())})
+		case "ToMontgomery", "Reduce":
+			if len(as) < 1 {
+				continue
+			}
+			var arr [32]byte
+			copy(arr[:], be32(as[0]))
+			_, flag := f.F[2].FromBytesWithReduce(arr)
+			f.emitF("FFromBytes", kv{"d", 3}, kv{"data", arr[:]}, kv{"ret", clamp(flag)})
+		case "Selectznz":
+			if !ok(2) {
+				continue
+			}
+			c, _ := e.word("arg1")
+			f.setInt(0, stored(as[0]))
+			f.setInt(1, stored(as[1]))
+			f.F[2].CMove(c&1, f.F[0], f.F[1])
+			f.emitF("FCMove", append(ids, kv{"c", int(c & 1)})...)
+		default:
+			continue
+		}
+		n++
+		f.class("corpus:carry_sites")
+	}
+}
+
 func genC12(m *M, budget int) {
 	f := &FM{M: m}
+	f.corpusField()
+	budget += f.events
 	for f.events < budget {
 		f.reset()
 		for i := 0; i < 12; i++ {
